@@ -179,6 +179,12 @@ def run_rm(ctx, p):
     a, b = xd0 + t * V.min() - 0.3 * span, xd0 + t * V.max() + 0.3 * span
     s = RC.make_solver(ctx, which, st, xd0, a, b)
     cell = (b - a) / 10000.0
+    if gen:
+        # the general solver widens the requested window to 1.1 x the extreme wave positions *in absolute coordinates*
+        # (far from the origin that is much wider than the waves): the cell size is read from the grid it actually used
+        ctx.call(s, np.array([xd0]), t)
+        gx = np.asarray(s.x, float)
+        cell = max(cell, float(gx.max() - gx.min()) / max(len(gx) - 1, 1))
     # waves: list of (kind, index into Vregs)
     waves = []
     if pat[0] == "S":
@@ -418,7 +424,10 @@ def run_ehep(ctx, p):
 
     def label(sol):
         return str(sol["region"][0]) == "0H"
-    fs = front_and_states(ctx, s, t, dt, lambda tt: 0.5 * D * tt, lambda tt: D * tt + 0.5 * (xt - D * tt), label, eps=1e-9)
+    # the one-sided states are read 1e-7 (relative) from the located front: the solver assigns regions with polygon tests
+    # whose own tolerance leaves points within ~1e-9 of a region boundary in no region at all (seen once in 1200 thorough
+    # cases: the point just behind the front came back as the all-zero "no region" record - C20's subject, not a jump)
+    fs = front_and_states(ctx, s, t, dt, lambda tt: 0.5 * D * tt, lambda tt: D * tt + 0.5 * (xt - D * tt), label, eps=1e-7)
     if fs is None:
         raise Skip("front_not_bracketed")
     # Chapman-Jouguet detonation: the unburnt explosive carries the heat of reaction q = D^2/(2(gamma^2-1)),
@@ -428,7 +437,7 @@ def run_ehep(ctx, p):
     jumps(ctx, "EscapeOfHEProducts", "detonation front", fs["L"], fs["R"], fs["D"], 5e-5, detail=dict(t=t, params=kw, x=fs["x"]))
     ctx.observe("rh.speed", "EscapeOfHEProducts", abs(fs["D"] - D) <= 5e-5 * D, branch="front speed = D", measure=abs(fs["D"] / D - 1), tol=5e-5)
     # CJ (sonic) condition behind the front
-    sol = ctx.call(s, np.array([fs["x"] * (1 - 1e-9)]), t)
+    sol = ctx.call(s, np.array([fs["x"] * (1 - 1e-7)]), t)
     uc = float(sol["velocity"][0]) + float(sol["sound_speed"][0])
     ctx.observe("rh.speed", "EscapeOfHEProducts", abs(uc - D) <= 5e-5 * D, branch="u+c=D behind front", measure=abs(uc / D - 1), tol=5e-5)
 
